@@ -16,6 +16,14 @@ impl Log {
     fn push(&self, v: Value) {
         self.0.lock().unwrap().push(v);
     }
+    /// an event that carries a reading of shared state (the dropped-lines counter): the reading is taken while the log is locked,
+    /// so that its place in the log is the moment of the reading (a thread descheduled between reading and pushing would
+    /// otherwise log a stale value behind later events)
+    fn push_with(&self, f: impl FnOnce() -> Value) {
+        let mut g = self.0.lock().unwrap();
+        let v = f();
+        g.push(v);
+    }
 }
 
 struct Gate {
@@ -278,13 +286,13 @@ fn child() {
             }
             "sleep" => std::thread::sleep(Duration::from_millis(st["ms"].as_u64().unwrap())),
             "drop_guard" => {
-                log.push(json!({"ev": "guard.drop.start", "dropped": counter.dropped_lines()}));
+                log.push_with(|| json!({"ev": "guard.drop.start", "dropped": counter.dropped_lines()}));
                 let t0 = Instant::now();
                 drop(guard.take());
                 log.push(json!({"ev": "guard.drop.end", "ms": t0.elapsed().as_millis() as u64}));
             }
             "drop_guard_unwind" => {
-                log.push(json!({"ev": "guard.drop.start", "dropped": counter.dropped_lines()}));
+                log.push_with(|| json!({"ev": "guard.drop.start", "dropped": counter.dropped_lines()}));
                 let t0 = Instant::now();
                 let g = guard.take();
                 let r = std::panic::catch_unwind(std::panic::AssertUnwindSafe(move || {
@@ -299,7 +307,7 @@ fn child() {
                 let log = log.clone();
                 let c = counter.clone();
                 gh = Some(std::thread::spawn(move || {
-                    log.push(json!({"ev": "guard.drop.start", "dropped": c.dropped_lines()}));
+                    log.push_with(|| json!({"ev": "guard.drop.start", "dropped": c.dropped_lines()}));
                     let t0 = Instant::now();
                     drop(g);
                     log.push(json!({"ev": "guard.drop.end", "ms": t0.elapsed().as_millis() as u64}));
@@ -316,7 +324,7 @@ fn child() {
         let _ = h.join();
     }
     if guard.is_some() {
-        log.push(json!({"ev": "guard.drop.start", "dropped": counter.dropped_lines()}));
+        log.push_with(|| json!({"ev": "guard.drop.start", "dropped": counter.dropped_lines()}));
         drop(guard.take());
         log.push(json!({"ev": "guard.drop.end", "ms": 0}));
     }
@@ -327,7 +335,7 @@ fn child() {
         log.push(json!({"ev": "bulk.final", "offered": offered, "written": bulk_lines.load(Ordering::SeqCst), "partial": bulk_partial.load(Ordering::SeqCst),
             "dropped": counter.dropped_lines()}));
     } else {
-        log.push(json!({"ev": "final", "dropped": counter.dropped_lines()}));
+        log.push_with(|| json!({"ev": "final", "dropped": counter.dropped_lines()}));
     }
     for v in log.0.lock().unwrap().iter() {
         runner::child_emit(v.clone());
